@@ -84,3 +84,15 @@ Example C09_ex2 :
   spike_model "differential" (Some 1) (Some 3) [Some 1; Some 5; Some 2; Some 4; Some 7; Some 1]
   = Flags [UNKNOWN; SUSPECT; SUSPECT; GOOD; SUSPECT; UNKNOWN].
 Proof. vm_compute. reflexivity. Qed.
+
+(* TRANSLATOR TIE: the skeleton generated from the CURRENT source of spike_test (guards
+   `suspect_threshold is not None` / `fail_threshold is not None` / `inp.size > 0`, the comparisons
+   `diff > threshold`, the flag constants and the order SUSPECT, FAIL, end points UNKNOWN, MISSING), run in the
+   model's environment (diff := the model's magnitude array), yields exactly the model's flags *)
+From IoosQc Require Import Skel SkelProofs.
+Theorem C09_source_skeleton : forall method m st ft xs,
+  parse_method method = Some m ->
+  spike_model method st ft xs =
+  Flags (run_steps (env_spike m st ft xs) skel_spike_test (all_flags (length xs) GOOD)).
+Proof. exact skel_spike. Qed.
+Print Assumptions C09_source_skeleton.
